@@ -17,6 +17,7 @@ WITNESS = {
     "get_many_from_sorted_mut": "select_many",
     "remove_nan_mut": "nanview",
     "argmin": "minmax", "argmax": "minmax", "min": "minmax", "max": "minmax",
+    "count_eq": "deviation", "count_neq": "deviation",
     "EquiSpaced::n_bins": "strategies",
     "EquiSpaced::build": "strategies",
     "EquiSpaced::new": "strategies",
@@ -97,7 +98,7 @@ PROPS = {
         "level_note": "bounded: axis lengths <= 2, ranks <= 3; value-independence of the guards is by inspection of the guard expressions (len/shape/q comparisons), not proved; strategies' EmptyInput/Strategy mapping is exercised by enum:strategies (C12)",
         "technique": "exhaustive bounded decision table on the real crate + Verus contract on EquiSpaced::new",
         "design_ref": "DESIGN.md 4 (C17)",
-        "verus": [("equispaced", "N"), ("minmax", "N")],
+        "verus": [("equispaced", "N"), ("minmax", "N"), ("deviation", "N")],
         "enum": [{"name": "errors"}],
         "assumptions": [A_ENUM, A_VERUS, A_EXTRACT, BOUNDED_NOTE],
         "not_decided": ["shapes with an axis longer than 2 or rank above 3"],
@@ -220,13 +221,14 @@ PROPS.update({
     },
     "C09": {
         "level": "exploration",
-        "level_text": "count_eq/count_neq and the integer distances are compared with the definition computed in i64 on the real crate, for every pairing of 5 layouts of the two operands and 4 ownership kinds; symmetry and zero-on-identical are checked exactly; the derived float measures are compared bit for bit with the documented function (sqrt, /n, sqrt of /n, 10 log10(maxv^2/mse)) of the exact integer value. Bodies are Zip::for_each closures mutating captured accumulators (rejected by Verus)",
-        "level_note": "bounded: i64/i32 over {-7,0,3,1000}, all pairs of contents for <= 2 elements, sampled above, shapes up to 4-D. Float inputs 'within roundoff': not decided",
-        "technique": "bounded enumeration against exact integer arithmetic on the real crate",
-        "design_ref": "DESIGN.md 4 (C09)",
+        "level_text": "proved part: Verus discharges on the extracted bodies of count_eq and count_neq (after the mechanical rewrites R11: `Zip::from(a).and(b).for_each(closure)` becomes a loop over the index-aligned pairs with the closure body as loop body, and R12: the crate's own guard macros are expanded from src/lib.rs) that for arrays of every dimensionality/layout an empty receiver gives EmptyInput, different shapes give an error, and otherwise count_eq is exactly the number of index positions holding equal elements - independent of the order in which Zip visits them (vstd's fold-permutation lemma) - and count_eq + count_neq is the number of elements. The distances (sq_l2/l1/linf and the derived float measures) are generic arithmetic folds whose exactness needs the concrete type's ring laws and absence of overflow: they are compared with exact i64 arithmetic on the real crate for every pairing of 5 layouts and 4 ownership kinds, and the derived measures bit for bit with their documented formulas",
+        "level_note": "trusted (proved part): A-ND n-D incl. Zip (each index exactly once, elements paired at the same index, unspecified order), slice ==, <[T]>::to_vec, PartialEq of the element type obeys its spec; the ShapeMismatch payload passes through `.into()` (not modelled by Verus: checked by enum:errors). bounded: enum:deviation - i64/i32 over {-7,0,3,1000}, all pairs of contents for <= 2 elements, sampled above, shapes up to 4-D. Float inputs 'within roundoff': not decided",
+        "technique": "Verus contract on count_eq/count_neq (loop over zipped pairs, fold-permutation lemma) + bounded enumeration against exact integer arithmetic for the distances",
+        "design_ref": "DESIGN.md 4 (C09), 8a",
+        "verus": [("deviation", "N")],
         "enum": [{"name": "deviation"}],
-        "assumptions": [A_ENUM, BOUNDED_NOTE],
-        "not_decided": ["float inputs (roundoff), big-integer element types"],
+        "assumptions": [A_VERUS, A_EXTRACT, A_ENUM, BOUNDED_NOTE, "A-ND (n-D) incl. Zip::for_each as stated in shim/zip.rs"],
+        "not_decided": ["float inputs (roundoff), big-integer element types", "exactness of sq_l2_dist / l1_dist / linf_dist beyond the enumerated inputs (needs ring laws of the element type)"],
         "rule": "one case per (shape, contents of both operands, layout pair); non-trivial = at least 2 elements and operands differ",
     },
     "C11": {
@@ -247,7 +249,7 @@ PROPS.update({
         "level_note": "bounded: enum:layouts - random integer-valued data, shapes 1-D..4-D (<= 16 elements), F-order / stepped-in-parent / reversed axes / embedded at an offset, owned/view/shared/copy-on-write, static vs dynamic dimension; enum:nanview. Float sums under different summation orders: only exactly-representable data",
         "technique": "layout-free trusted interface in the Verus shim + bounded pairwise enumeration on the real crate",
         "design_ref": "DESIGN.md 4 (C20)",
-        "verus": [("nan", "N"), ("minmax", "N"), ("bins", "N")],
+        "verus": [("nan", "N"), ("minmax", "N"), ("bins", "N"), ("deviation", "N")],
         "enum": [{"name": "layouts"}, {"name": "nanview", "abort_props": ["C04"]}],
         "assumptions": [A_ND, A_VERUS, A_EXTRACT, A_ENUM, BOUNDED_NOTE],
         "not_decided": ["floating-point sums whose value depends on summation order (roundoff bound)"],
